@@ -1142,6 +1142,25 @@ def pattern_net(rng, idx=0, pattern=None, variant=None):
         z = b.fm(b.t(y).shape, dtype)
         b.net.ops.append(Op("CONV_2D", [y, first.inputs[1], first.inputs[2]], [z], first.opts))
         return b.finish([z])
+    if pattern == "shared_weights_deep":
+        # two convolutions share ONE weight tensor but have biases of their own (the encoder's cache returns the encoded weights
+        # and a standalone scale tensor for the second); preceded and followed by convolutions with large constants of their
+        # own and small feature maps, so the constants lie beyond the arena extent: an access to the right offset in the
+        # wrong region leaves the region (seeded change C02-r6m2)
+        c = 32
+        x = b.input([1, 8, 8, c])
+        cur = x
+        for _ in range(1 + idx % 3):
+            cur = b.conv(cur, c, (3, 3), (1, 1), (1, 1), "SAME", per_channel=False)
+        y = b.conv(cur, c, (3, 3), (1, 1), (1, 1), "SAME", per_channel=False)
+        first = b.net.ops[-1]
+        bt0 = b.t(first.inputs[2])
+        br = np.random.RandomState(rng.getrandbits(32))
+        bt = b.const([c], bt0.dtype, br.randint(-2000, 2000, c), list(bt0.scales), [0] * len(bt0.scales), 0, b.fresh("b"))
+        z = b.fm(b.t(y).shape, dtype, scale=b.t(y).scales[0])
+        b.net.ops.append(Op("CONV_2D", [y, first.inputs[1], bt], [z], first.opts))
+        w = b.conv(z, c, (3, 3), (1, 1), (1, 1), "SAME", per_channel=False) if idx % 2 else z
+        return b.finish([w])
     if pattern == "big_fm_u65":
         c = rng.choice([16, 32])
         x = b.input([1, rng.choice([64, 96, 128]), rng.choice([64, 96]), c])
